@@ -233,6 +233,30 @@ def generate(repo):
     lines.append(";\n".join(rows))
     lines.append("].")
     lines.append("Definition interval_paths_count : nat := %d." % npaths)
+    # ---- scope: no other code touches the rounding mode or calls Boost's interval primitives directly ---------
+    import glob
+    sites, nfiles = [], 0
+    pat = re.compile(r"boost\s*::\s*numeric\s*::\s*(\w+)\s*\(|\b(fesetround|fegetround|fesetenv|feholdexcept|feupdateenv|"
+                     r"_MM_SET_ROUNDING_MODE|_mm_setcsr|_controlfp|_control87|fesetexceptflag|feenableexcept)\b")
+    for root in ("libfive/src", "libfive/include", "libfive/stdlib"):
+        for path in sorted(glob.glob(os.path.join(repo, root, "**", "*"), recursive=True)):
+            if not os.path.isfile(path) or not path.endswith((".cpp", ".hpp", ".h", ".inl", ".c")):
+                continue
+            rel = os.path.relpath(path, repo)
+            if rel == g.HEADER:
+                continue
+            nfiles += 1
+            text = strip_comments(open(path, encoding="utf-8", errors="replace").read())
+            for mm in pat.finditer(text):
+                what = mm.group(1) and ("boost::numeric::" + mm.group(1)) or mm.group(2)
+                sites.append((rel, what))
+    if nfiles < 100:
+        raise ValueError("only %d source files scanned for rounding-mode sites" % nfiles)
+    lines.append("")
+    lines.append("(* every place outside interval.hpp that names a Boost interval primitive or a rounding-mode / FP-environment setter *)")
+    lines.append("Definition fpenv_foreign_sites : list (string * string) := [%s]." %
+                 "; ".join('("%s", "%s")' % s_ for s_ in sites))
+    lines.append("Definition fpenv_files_scanned : nat := %d." % nfiles)
     return "\n".join(lines) + "\n"
 
 
